@@ -2,9 +2,9 @@
 # Applies every stored seed (breaking change) in turn and requires the property's check to report it.
 cd /verif; . ./env.sh
 miss=0
-for d in seeded/C*/; do id=$(basename $d)
+for d in seeded/C*/; do id=$(basename $d | cut -c1-3)
   out=$(./seedtest.sh $id /verif/$d/patch.diff 2>&1); rc=$(echo "$out" | grep -o "exit=[0-9]*" | head -1)
-  echo "$id $rc $(echo "$out" | grep -m1 -E "VIOLATED|UNDECIDED" | cut -c1-160)"
+  echo "$(basename $d) $rc $(echo "$out" | grep -m1 -E "VIOLATED|UNDECIDED" | cut -c1-160)"
   [ "$rc" = "exit=1" ] || miss=$((miss+1))
 done
 echo "allseeds: $miss not reported"
